@@ -321,6 +321,8 @@ Record slot := mkSlot { act : action; got : list (list aset) }.
 Record case := mkCase {
   start_err : bool;           (* ServiceStatusStream returned an error *)
   etcd : bool;                (* real etcd store (the model of Part 1 produces the stream items) *)
+  keys0 : aset;               (* etcd: addresses registered before helium.New *)
+  between : list kvev;        (* etcd: changes committed after the stream's Watch and before its Get *)
   slots : list slot;
   fin_closed : list bool;     (* per subscriber: channel observed closed at the end *)
   fin_unsub : list bool       (* per Unsubscribe call, in call order: returned by the end *)
@@ -415,9 +417,13 @@ Definition unsub_flags (calls : nat) (s : st) : list bool :=
   let done := calls - length (unsubq s) in
   repeat true done ++ repeat false (calls - done).
 
+Definition stream_start (c : case) : list srcitem :=
+  service_status_stream true (keys0 c) (map (fun e => WEvents [e]) (between c)) [].
 Definition init_of (c : case) : st * aset :=
   if start_err c then (init_failed, [])
-  else if etcd c then (drain 8 (run init (map ESrc (service_status_stream true [] [] []))), [])
+  else if etcd c then
+    let items := stream_start c in
+    (drain (8 + 4 * length items) (run init (map ESrc items)), last_item items [])
   else (init, []).
 
 Definition agree (c : case) : bool :=
@@ -508,7 +514,8 @@ Definition ok_step (o : okst) (sl : slot) : okst :=
   mkOk fl2 hist eps dead calls (o_good o && b1 && b2).
 
 Definition ok (c : case) : bool :=
-  let o0 := mkOk [] [[]] [] (start_err c) [] true in
+  let e0 := if etcd c then last_item (stream_start c) [] else [] in
+  let o0 := mkOk [] (if etcd c then [[]; e0] else [[]]) e0 (start_err c) [] true in
   let o := fold_left ok_step (slots c) o0 in
   o_good o &&
   (o_dead o ||
